@@ -37,6 +37,17 @@ def declare_problem(P, objective, weights=None):
         ind = ps.IndicatorFromMathExpression(name="slack", expression=b.s - a.e, bounds=(P.int("b_lo", ph=0), P.int("b_hi", ph=9)))
         cls = ps.ObjectiveMinimizeIndicator if objective == "min_bounded" else ps.ObjectiveMaximizeIndicator
         objs.append(cls(target=ind, weight=1))
+        objs[-1]._user_promised_bounds = True
+    elif objective == "min_cost":
+        # a built-in indicator on a worker that pays back: the cheapest schedule costs less than nothing
+        free = ps.Worker(name="Free")
+        paid = ps.Worker(name="Paid", cost=ps.ConstantFunction(value=-2))  # (a constant keeps the traces linear)
+        b.obj.add_required_resource(ps.SelectWorkers(list_of_workers=[free, paid], nb_workers_to_select=1))
+        objs.append(ps.ObjectiveMinimizeResourceCost(list_of_resources=[free, paid]))
+    elif objective == "max_utilization":
+        w = ps.Worker(name="W")
+        b.obj.add_required_resource(w)
+        objs.append(ps.ObjectiveMaximizeResourceUtilization(resource=w))
     elif objective in ("min_user", "max_user"):
         ind = ps.IndicatorFromMathExpression(name="user", expression=2 * a.s + b.e)
         cls = ps.ObjectiveMinimizeIndicator if objective == "min_user" else ps.ObjectiveMaximizeIndicator
@@ -70,6 +81,7 @@ def declare_problem(P, objective, weights=None):
         for ind in order:
             objs.append(ps.ObjectiveMaximizeIndicator(target=ind, weight=1))
             objs[-1]._declared_weight = 1
+            objs[-1]._user_promised_bounds = ind is bounded
     return pb, a, b, objs
 
 
@@ -274,10 +286,11 @@ def ob_optimum_claims(ctx, path):
         if t2 is None:
             return {"status": "unknown", "note": "objective target not in the base stack"}
         better = t2 < m_last if kind == "minimize" else t2 > m_last
-        # the user's promise: the bounds declared on the indicators the user declared hold for every schedule
+        # the user's promise: the bounds the USER declared on an indicator hold for every schedule; the bounds a built-in
+        # indicator declares for itself are not taken on trust (the constraint system itself must imply them)
         promised = []
         for o in ctx.objs:
-            if o._bounds is not None:
+            if o._bounds is not None and getattr(o, "_user_promised_bounds", False):
                 tcopy = mp.get(o._target.decl().name())
                 if tcopy is not None:
                     promised += [tcopy >= formula.to_z3(o._bounds[0]), tcopy <= formula.to_z3(o._bounds[1])]
@@ -319,7 +332,7 @@ def shapes(tier):
     out = []
     thorough = tier == "thorough"
     K = 7 if thorough else 5
-    objectives = ["makespan", "flowtime", "start_latest", "min_bounded", "max_bounded", "min_user", "max_user"]
+    objectives = ["makespan", "flowtime", "start_latest", "min_bounded", "max_bounded", "min_user", "max_user", "min_cost", "max_utilization"]
     for obj in objectives:
         iters = [None, 1, 2, 3] + ([4, 5] if thorough else [])
         for mi in iters:
